@@ -147,6 +147,13 @@ pub fn gen_raw(rng: &mut Rng, _thorough: bool) -> RawCase {
   }
   if k == 0 {
     // junk over base64 + separators + arbitrary bytes, long continuation runs, huge deltas
+    // now and then one segment with very many fields (a counter of fields kept in a byte: seed S144; sizes near 2^16 would make shrinking quadratic in a 64 KiB case and are left to the thorough tier's fixed corpus)
+    if rng.chance(25) {
+      let n = *rng.pick(&[254usize, 255, 256, 257, 300]);
+      let mut s: Vec<u8> = (0..n).map(|_| *rng.pick(b"ACDE")).collect();
+      if rng.chance(2) { s.extend_from_slice(b",AAAA;AACA"); }
+      return RawCase::Dec(s)
+    }
     let n = rng.below(40); let mut s = vec![];
     while s.len() < n {
       match rng.below(8) {
